@@ -6,6 +6,7 @@ package main
 // analysed here is how the emitter *uses* FIRST sets.
 
 import (
+	"fmt"
 	"sort"
 )
 
@@ -140,4 +141,9 @@ func installSetNatives(it *Interp) {
 	n[m+"Union"] = func(it *Interp, a []Value) []Value { return []Value{set(a[0]).union(set(a[1]))} }
 	n[m+"Intersects"] = func(it *Interp, a []Value) []Value { return []Value{set(a[0]).intersects(set(a[1]))} }
 	n[m+"Complement"] = func(it *Interp, a []Value) []Value { return []Value{set(a[0]).complement(r(a[1]))} }
+	n[m+"Equal"] = func(it *Interp, a []Value) []Value {
+		x, y := set(a[0]), set(a[1])
+		return []Value{x.subsetOf(y) && y.subsetOf(x)}
+	}
+	n[m+"String"] = func(it *Interp, a []Value) []Value { return []Value{fmt.Sprint(set(a[0]).iv)} }
 }
